@@ -17,9 +17,11 @@ RULE = ("seeded random runs (backgrounds at both levels, outlines, skipped/faili
 LEVEL_TEXT = ("Theorems over Runner.v + Formatters.v: the formatter events of every scenario run are its announcement followed by one "
               "(match, result) pair per processed step, for a prefix of its steps, each result carrying the step's final status; over "
               "any such stream the JSON fold attaches result i to step i without index error and the step queue of plain/progress shows "
-              "each processed step once with that status.  The folds are compared with the real JSONFormatter / PlainFormatter on "
+              "each processed step once with that status; the stream of every whole run is a word of the protocol automaton (Protocol.v: "
+              "features bracketed by uri/eof, rules, scenarios announcing their steps before reporting them, results naming the announced "
+              "steps in order, exactly one close at the end).  The folds are compared with the real JSONFormatter / PlainFormatter on "
               "real runs; the oracle checks protocol grammar, agreement between formatter positions, JSON vs model, read-back, progress counts.")
-LEVEL_NOTE = "Trusted: Coq kernel, renderer, text decoders, stdlib json. Whole-run grammar (uri/feature/eof/close) is oracle-checked."
+LEVEL_NOTE = "Trusted: Coq kernel, renderer, text decoders, stdlib json. The whole-run grammar is a theorem and is also checked by the oracle on real streams."
 
 
 def impl_formatters(case):
